@@ -11,6 +11,33 @@ E3 = "bounded exhaustive enumeration of inputs/programs/configurations executed 
 
 # pid -> (technique, level text, level note, design ref)
 CHECKS = {
+    "C05": (
+        E3 + " (programs), each program executed on the real streaming path under the virtual loop",
+        "Every expression tree with up to 3 operator nodes (binary + - * / max min, unary consumption/production, constants, "
+        "repeated leaves) built through the Python operator API, and every formula string with up to 4 operators in flat, "
+        "singly and doubly parenthesised, redundant-parentheses and no-whitespace forms, run with one timestamp per combination "
+        "of leaf values; emitted values compared with a reference evaluator / an independent precedence-climbing parser.",
+        "Lock-step delivery; timestamps with an undefined reference value are left to C13; program size and value menu are the bounds.",
+        "DESIGN.md §3 C05",
+    ),
+    "C13": (
+        E3 + " (programs x missing-input patterns), executed on the real streaming path under the virtual loop",
+        "The C05 programs (plus nested .build() compositions) under 3-4 nones_are_zeros configurations, with one timestamp per "
+        "subset of inputs missing in each encoding (None, NaN, +inf, -inf) and all zero/sign vectors (zero divisors, both operand "
+        "orders of min/max): None exactly when the reference says so, missing-as-zero equals 0, exactly one sample per timestamp.",
+        "Lock-step delivery; 'configured as zero' = nones_are_zeros on the stream's from_receiver or on the consuming build().",
+        "DESIGN.md §3 C13",
+    ),
+    "C16": (
+        E1 + "; " + E2,
+        "Every history up to depth 4-5 over 17 events (battery/inverter messages healthy or faulty in one way, silences incl. "
+        "exactly the maximum age, set-power outcomes) executed on the real BatteryStatusTracker with the wall clock bound to the "
+        "virtual loop, from healthy, cold and post-failure starts, plus a BFS to depth 10-13 with canonical-state merging; the "
+        "notification sequence must equal a seven-field reference model and a usable status implies fresh healthy data; the real "
+        "ComponentPoolStatusTracker over two batteries and all ComponentPoolStatus queries.",
+        "Fresh messages are stamped now (message age = reception age); reference model trusted; merging key includes the real tracker's fields.",
+        "DESIGN.md §3 C16",
+    ),
     "C10": (
         E1,
         "A scripted probe Actor (sequences of up to 3 _run invocations with await points, outcomes return / Exception / "
